@@ -162,6 +162,11 @@ pub struct Obs {
 pub struct Printed {
     /// stdout has a line that is exactly "OK"
     pub ok_line: bool,
+    /// number of such lines on stdout, and on stderr
+    #[serde(default)]
+    pub ok_lines_stdout: u32,
+    #[serde(default)]
+    pub ok_lines_stderr: u32,
     /// codes of the `error[Pnnnn]` headers on stderr, in order
     pub codes: Vec<String>,
     /// the `file:line:col` location lines of the rendered diagnostics, in order
@@ -178,6 +183,7 @@ pub fn parse_printed(stdout: &str, stderr: &str) -> Printed {
     for line in stdout.lines() {
         if line.trim_end() == "OK" {
             p.ok_line = true;
+            p.ok_lines_stdout += 1;
         }
         if let Some(at) = line.rfind(", At: Ln ") {
             let rest = &line[at + 9..];
@@ -189,6 +195,9 @@ pub fn parse_printed(stdout: &str, stderr: &str) -> Printed {
         }
     }
     for line in err.lines() {
+        if line.trim_end() == "OK" {
+            p.ok_lines_stderr += 1;
+        }
         if let Some(rest) = line.strip_prefix("error[") {
             if let Some(end) = rest.find(']') {
                 p.codes.push(rest[..end].to_string());
